@@ -89,6 +89,9 @@ func (s *service) TakeTestRecording() *dbus.Error {
 }
 
 func (s *service) CameraInfo() (map[string]interface{}, *dbus.Error) {
+	mu.Lock()
+	headerInfo := headerInfo
+	mu.Unlock()
 
 	if headerInfo == nil {
 		return nil, &dbus.Error{
